@@ -60,12 +60,14 @@ pub fn main(args: &[String], w: &mut dyn Write) {
     let (shard, nsh): (u64, u64) = (args[2].parse().unwrap(), args[3].parse().unwrap());
     let mut r = Rng::new(seed.wrapping_add(shard * 67867967));
     if shard == 0 {
-        for e in ["", "foo", "Hello (glob)", "a\tb", "C:\\temp", "a\\\\b", "x (", "日本"] { for s in SUFFIXES { writeln!(w, "{}", case(&mk, &format!("{}{}", e, s))).unwrap(); } }
+        for e in ["", "foo", "Hello (glob)", "a\tb", "C:\\temp", "a\\\\b", "x (", "日本"] { for s in SUFFIXES { writeln!(w, "{}", case(&mk, &format!("{}{}", e, s))).unwrap(); for t in [" ", "\t", "\u{a0}"] { writeln!(w, "{}", case(&mk, &format!("{}{}{}", e, s, t))).unwrap(); } } }
     }
     for _ in 0..(count / nsh) {
         let mut line = gen_expr(&mut r);
         let k = r.range(0, 2);
         for _ in 0..k { line.push_str(*r.pick(&SUFFIXES)); }
+        // whitespace after what looks like a modifier: the line has no FINAL group, it is an equal expectation for the whole line
+        if r.chance(1, 6) { line.push_str(*r.pick(&[" ", "  ", "\t", "\u{a0}", "\u{3000}", " \t "])); }
         if line.contains('\n') { continue; }
         writeln!(w, "{}", case(&mk, &line)).unwrap();
     }
